@@ -19,7 +19,12 @@
 //! a claim (any depth), with or without the network forgetting the descendants; the transactions that
 //! left the chain confirm again when the script lets them.
 //!
-//! usage: onchain [--scripts FILE] [--random N --profile c06|c06t|c06r|c06s|c07|c07r|c07u --seed S] --out TRACE
+//! A node may have a SECOND channel (with a third node) that is closed unilaterally too (`cfg.second`, op
+//! `close2`); what both channels hand over in `SpendableOutputs` events is swept by the node's
+//! `OutputSpender` one descriptor per call, per event, all at once (what `OutputSweeper` does) or in random
+//! batches (`cfg.sweep`), at once or only when everything has been reported.
+//!
+//! usage: onchain [--scripts FILE] [--random N --profile c06|c06t|c06r|c06s|c06m|c07|c07r|c07u|c07d|c07x|c07p|c07m --seed S] --out TRACE
 
 use bitcoin::absolute::LockTime;
 use bitcoin::hashes::Hash as _;
@@ -112,6 +117,33 @@ struct Pending {
 	node: usize,
 	desc: SpendableOutputDescriptor,
 	done: bool,
+	/// the number of the `SpendableOutputs` event that reported it (descriptors of one event may be swept together)
+	evno: usize,
+	/// the sweep transaction it was last put into
+	sweep: Option<Txid>,
+}
+
+fn desc_outpoint(d: &SpendableOutputDescriptor) -> OutPoint {
+	match d {
+		SpendableOutputDescriptor::StaticOutput { outpoint, .. } => outpoint.into_bitcoin_outpoint(),
+		SpendableOutputDescriptor::DelayedPaymentOutput(x) => x.outpoint.into_bitcoin_outpoint(),
+		SpendableOutputDescriptor::StaticPaymentOutput(x) => x.outpoint.into_bitcoin_outpoint(),
+	}
+}
+fn desc_kind(d: &SpendableOutputDescriptor) -> &'static str {
+	match d {
+		SpendableOutputDescriptor::StaticOutput { .. } => "static",
+		SpendableOutputDescriptor::DelayedPaymentOutput(_) => "delayed",
+		SpendableOutputDescriptor::StaticPaymentOutput(_) => "static_payment",
+	}
+}
+/// The channel whose signer has to sign for the descriptor (None: the node's own destination key).
+fn desc_keys_id(d: &SpendableOutputDescriptor) -> Option<[u8; 32]> {
+	match d {
+		SpendableOutputDescriptor::StaticOutput { channel_keys_id, .. } => *channel_keys_id,
+		SpendableOutputDescriptor::DelayedPaymentOutput(x) => Some(x.channel_keys_id),
+		SpendableOutputDescriptor::StaticPaymentOutput(x) => Some(x.channel_keys_id),
+	}
 }
 
 struct Net {
@@ -168,6 +200,38 @@ struct Net {
 	open_h: u32,
 	rb_tick: u32,
 	in_reorg: bool,
+	// a second channel of node `hub` (with node 2), closed unilaterally as well
+	second: Option<Second>,
+	// how the application sweeps what was reported: "each" descriptor on its own, the descriptors of one
+	// "event" together, "all" that are mature in one call (what OutputSweeper does), "mixed" random batches
+	sweep_mode: String,
+	// sweeping waits until everything has been reported (op `sweep` or the settling phase)
+	sweep_defer: bool,
+	sweep_now: bool,
+	srng: StdRng,
+	spend_events: usize,
+}
+
+struct Second {
+	hub: usize,
+	chan_id: ChannelId,
+	funding: OutPoint,
+	chan_type: String,
+	closed: bool,
+	commit_txid: Option<Txid>,
+}
+
+/// BIP68 delay the spend of a reported output has to respect
+fn desc_delay(d: &SpendableOutputDescriptor) -> u32 {
+	match d {
+		SpendableOutputDescriptor::StaticOutput { .. } => 0,
+		SpendableOutputDescriptor::DelayedPaymentOutput(x) => x.to_self_delay as u32,
+		SpendableOutputDescriptor::StaticPaymentOutput(x) => {
+			let anchors = x.channel_transaction_parameters.as_ref().map(|p| p.channel_type_features.supports_anchors_zero_fee_htlc_tx()
+				|| p.channel_type_features.supports_anchor_zero_fee_commitments()).unwrap_or(false);
+			if anchors { 1 } else { 0 }
+		},
+	}
 }
 
 fn harness_key() -> SecretKey {
@@ -615,8 +679,12 @@ impl Net {
 			for e in evs {
 				any = true;
 				match e {
-					Event::SpendableOutputs { outputs, .. } => {
+					Event::SpendableOutputs { outputs, channel_id, .. } => {
 						let mut ds = Vec::new();
+						self.spend_events += 1;
+						let evno = self.spend_events;
+						// which of the node's channels the event is about (1: the channel the run is about, 2: the second one)
+						let chan = if channel_id == Some(self.chan_id) { 1 } else if self.second.as_ref().map(|s| Some(s.chan_id) == channel_id).unwrap_or(false) { 2 } else { 0 };
 						for d in outputs {
 							let (k, op, amt, delay) = match &d {
 								SpendableOutputDescriptor::StaticOutput { outpoint, output, .. } => ("static", outpoint.into_bitcoin_outpoint(), output.value.to_sat(), 0),
@@ -626,10 +694,10 @@ impl Net {
 							let real = self.outs.get(&op).map(|o| o.value.to_sat() as i64).unwrap_or(-1);
 							let confirmed = self.conf.contains_key(&op.txid);
 							ds.push(json!({"k":k,"op":self.opj(&op),"amt":amt,"delay":delay,"real_amt":real,"confirmed":confirmed}));
-							self.pending.push(Pending { node: i, desc: d, done: false });
+							self.pending.push(Pending { node: i, desc: d, done: false, evno, sweep: None });
 						}
 						let h = self.height();
-						self.ev(json!({"ev":"spendable","node":i,"h":h,"outs":ds}));
+						self.ev(json!({"ev":"spendable","node":i,"h":h,"chan":chan,"outs":ds}));
 					},
 					Event::BumpTransaction(b) => {
 						// what the monitor asks for: which claim (its public id), the channel outputs the
@@ -691,7 +759,9 @@ impl Net {
 	}
 
 	fn balances(&mut self, i: usize) -> Value {
-		let bals = self.nodes[i].chain_monitor.chain_monitor.get_claimable_balances(&[]);
+		// (of the channel the run is about: ChainMonitor::get_claimable_balances is the concatenation over the
+		//  node's monitors; a second closed channel of the node is judged through its broadcasts, reports and sweeps)
+		let bals = self.nodes[i].chain_monitor.chain_monitor.get_monitor(self.chan_id).map(|m| m.get_claimable_balances()).unwrap_or_default();
 		let mut items = Vec::new();
 		for b in bals {
 			items.push(match b {
@@ -717,48 +787,95 @@ impl Net {
 		json!(items)
 	}
 
-	/// Build (and put into the mempool) the sweep of every reported spendable output that is mature.
+	/// The application sweeps what was reported and is mature (`OutputSpender::spend_spendable_outputs`), one
+	/// call per descriptor / per `SpendableOutputs` event / for everything at once / for random batches in random
+	/// order -- whatever channels of the node the descriptors come from.  What was asked and what came back is
+	/// recorded; the sweep transaction goes to the mempool.
 	fn try_sweeps(&mut self) {
 		let h = self.height();
-		let secp = Secp256k1::new();
-		for k in 0..self.pending.len() {
-			if self.pending[k].done { continue; }
-			let node = self.pending[k].node;
-			let (op, delay) = match &self.pending[k].desc {
-				SpendableOutputDescriptor::StaticOutput { outpoint, .. } => (outpoint.into_bitcoin_outpoint(), 0u32),
-				SpendableOutputDescriptor::DelayedPaymentOutput(x) => (x.outpoint.into_bitcoin_outpoint(), x.to_self_delay as u32),
-				SpendableOutputDescriptor::StaticPaymentOutput(x) => (x.outpoint.into_bitcoin_outpoint(), if self.chan_type == "static" { 0 } else { 1 }),
-			};
-			let ch = match self.conf.get(&op.txid) { Some(c) => *c, None => continue };
-			if ch + delay > h + 1 { continue; }
-			if self.spent.contains_key(&op) { self.pending[k].done = true; continue; }
-			self.pending[k].done = true;
-			let dest = ScriptBuf::new_p2wpkh(&WPubkeyHash::hash(&[0x77, node as u8]));
-			let desc = self.pending[k].desc.clone();
-			let res = catch_unwind(AssertUnwindSafe(|| {
-				self.nodes[node].keys_manager.backing.spend_spendable_outputs(&[&desc], Vec::new(), dest.clone(), 253, None, &secp)
-			}));
-			let opj = self.opj(&op);
-			match res {
-				Ok(Ok(tx)) => {
-					let txid = tx.compute_txid();
-					let id = self.txi(&txid);
-					self.register_outputs(&tx);
-					let valid = self.verify(&tx);
-					let fin = self.is_final(&tx, h + 1, &HashSet::new());
-					let inval: u64 = tx.input.iter().map(|i| self.outs.get(&i.previous_output).map(|o| o.value.to_sat()).unwrap_or(0)).sum();
-					let outval: u64 = tx.output.iter().map(|o| o.value.to_sat()).sum();
-					let ins: Vec<Value> = tx.input.iter().map(|i| self.opj(&i.previous_output)).collect();
-					self.ev(json!({"ev":"sweep","node":node,"h":h,"tx":id,"op":opj,"ok":true,"ins":ins,"out_amt":outval,"fee":inval as i64 - outval as i64,"valid":valid,"final":fin}));
-					let weight = tx.weight().to_wu();
-					if !self.conf.contains_key(&txid) && !self.mempool.iter().any(|m| m.txid == txid) {
-						self.mempool.push(MemTx { tx, txid, id, by: node, valid, fee: inval as i64 - outval as i64, weight, sweep: true });
-					}
-				},
-				_ => {
-					self.ev(json!({"ev":"sweep","node":node,"h":h,"tx":0,"op":opj,"ok":false,"ins":[],"out_amt":0,"fee":0,"valid":false,"final":false}));
-				},
+		// a sweep that can never confirm any more (it also spent an output of a transaction that left the chain
+		// for good): the application sweeps the outputs that are still there again
+		let stuck: Vec<Txid> = self.mempool.iter().filter(|m| m.sweep && !self.could_ever_confirm(m)).map(|m| m.txid).collect();
+		if !stuck.is_empty() {
+			self.mempool.retain(|m| !stuck.contains(&m.txid));
+			for p in self.pending.iter_mut() {
+				if p.done && p.sweep.map(|t| stuck.contains(&t)).unwrap_or(false) { p.done = false; p.sweep = None; }
 			}
+		}
+		if self.sweep_defer && !self.sweep_now { return; }
+		for node in self.live.clone() {
+			let mut ready: Vec<usize> = Vec::new();
+			for k in 0..self.pending.len() {
+				if self.pending[k].done || self.pending[k].node != node { continue; }
+				let op = desc_outpoint(&self.pending[k].desc);
+				let delay = desc_delay(&self.pending[k].desc);
+				let ch = match self.conf.get(&op.txid) { Some(c) => *c, None => continue };
+				if ch + delay > h + 1 { continue; }
+				if self.spent.contains_key(&op) { self.pending[k].done = true; continue; }
+				ready.push(k);
+			}
+			if ready.is_empty() { continue; }
+			let mode = self.sweep_mode.clone();
+			let groups: Vec<Vec<usize>> = match mode.as_str() {
+				"all" => vec![ready],
+				"event" => {
+					let mut g: Vec<Vec<usize>> = Vec::new();
+					for k in ready {
+						match g.iter_mut().find(|x| self.pending[x[0]].evno == self.pending[k].evno) { Some(x) => x.push(k), None => g.push(vec![k]) }
+					}
+					g
+				},
+				"mixed" => {
+					let mut r = ready;
+					for i in (1..r.len()).rev() { let j = self.srng.gen_range(0..=i); r.swap(i, j); }
+					let mut g: Vec<Vec<usize>> = Vec::new();
+					while !r.is_empty() {
+						let n = self.srng.gen_range(1..=r.len());
+						g.push(r.drain(..n).collect());
+					}
+					g
+				},
+				_ => ready.into_iter().map(|k| vec![k]).collect(),
+			};
+			for g in groups { self.sweep(node, &g, h); }
+		}
+	}
+
+	fn sweep(&mut self, node: usize, idx: &[usize], h: u32) {
+		let secp = Secp256k1::new();
+		let dest = ScriptBuf::new_p2wpkh(&WPubkeyHash::hash(&[0x77, node as u8]));
+		let descs: Vec<SpendableOutputDescriptor> = idx.iter().map(|k| self.pending[*k].desc.clone()).collect();
+		for k in idx.iter() { self.pending[*k].done = true; }
+		let res = catch_unwind(AssertUnwindSafe(|| {
+			let refs: Vec<&SpendableOutputDescriptor> = descs.iter().collect();
+			self.nodes[node].keys_manager.backing.spend_spendable_outputs(&refs, Vec::new(), dest.clone(), 253, None, &secp)
+		}));
+		let req: Vec<Value> = descs.iter().map(|d| self.opj(&desc_outpoint(d))).collect();
+		let kinds: Vec<&str> = descs.iter().map(|d| desc_kind(d)).collect();
+		// how many different channel signers the call needs
+		let mut ids: Vec<[u8; 32]> = descs.iter().filter(|d| !matches!(d, SpendableOutputDescriptor::StaticOutput { .. })).filter_map(|d| desc_keys_id(d)).collect();
+		ids.sort(); ids.dedup();
+		match res {
+			Ok(Ok(tx)) => {
+				let txid = tx.compute_txid();
+				let id = self.txi(&txid);
+				self.register_outputs(&tx);
+				let valid = self.verify(&tx);
+				let fin = self.is_final(&tx, h + 1, &HashSet::new());
+				let inval: u64 = tx.input.iter().map(|i| self.outs.get(&i.previous_output).map(|o| o.value.to_sat()).unwrap_or(0)).sum();
+				let outval: u64 = tx.output.iter().map(|o| o.value.to_sat()).sum();
+				let ins: Vec<Value> = tx.input.iter().map(|i| self.opj(&i.previous_output)).collect();
+				self.ev(json!({"ev":"sweep","node":node,"h":h,"tx":id,"req":req,"kinds":kinds,"signers":ids.len(),"ok":true,"ins":ins,"out_amt":outval,"fee":inval as i64 - outval as i64,"valid":valid,"final":fin}));
+				let weight = tx.weight().to_wu();
+				for k in idx.iter() { self.pending[*k].sweep = Some(txid); }
+				if !self.conf.contains_key(&txid) && !self.mempool.iter().any(|m| m.txid == txid) {
+					self.mempool.push(MemTx { tx, txid, id, by: node, valid, fee: inval as i64 - outval as i64, weight, sweep: true });
+				}
+			},
+			_ => {
+				// refused (Err) or panicked: recorded as it is; the verdict is the specification's
+				self.ev(json!({"ev":"sweep","node":node,"h":h,"tx":0,"req":req,"kinds":kinds,"signers":ids.len(),"ok":false,"ins":[],"out_amt":0,"fee":0,"valid":false,"final":false}));
+			},
 		}
 	}
 
@@ -1144,6 +1261,16 @@ impl Net {
 					None => false,
 				};
 			},
+			"sweep" => {
+				// the application sweeps now what it has been handed so far (deferred sweeping)
+				self.flush_idle();
+				self.sweep_now = true;
+				self.checkpoint(None, true);
+				if op["once"].as_bool().unwrap_or(true) { self.sweep_now = false; }
+			},
+			"close2" => {
+				did = self.close2(op["kind"].as_str().unwrap_or("holder"));
+			},
 			"style" => {
 				let i = op["node"].as_u64().unwrap_or(0) as usize % 2;
 				*self.nodes[i].connect_style.borrow_mut() = style_of(op["v"].as_u64().unwrap_or(0) as usize);
@@ -1151,9 +1278,14 @@ impl Net {
 			"settle" => {
 				let max = op["max"].as_u64().unwrap_or(420);
 				let mut quiet = 0;
-				for _ in 0..max {
+				// (a second channel that was never taken to the chain by the script goes there now)
+				if self.second.as_ref().map(|s| !s.closed).unwrap_or(false) { let k = self.srng.gen_range(0..2); self.close2(if k == 0 { "holder" } else { "counterparty" }); }
+				for round in 0..max {
 					self.mine_block(&[0, 1, AGENT, HARNESS], true, None);
 					let empty = self.live.clone().iter().all(|i| self.nodes[*i].chain_monitor.chain_monitor.get_claimable_balances(&[]).iter().all(|b| matches!(b, Balance::MaybePreimageClaimableHTLC { .. })));
+					// deferred sweeping: once every balance has drained into SpendableOutputs events (or, at the
+					// latest, after 250 blocks) the application sweeps what it was handed
+					if self.sweep_defer && !self.sweep_now && (empty || round >= 250) { self.sweep_now = true; }
 					let none_pending = self.pending.iter().all(|p| p.done) && self.mempool.iter().all(|m| m.by >= 2 || !m.valid || !self.could_ever_confirm(m));
 					if empty && none_pending { quiet += 1; } else { quiet = 0; }
 					if quiet >= 3 { break; }
@@ -1384,13 +1516,17 @@ impl Net {
 
 	fn reload(&mut self, i: usize) {
 		let mgr_bytes = self.nodes[i].node.encode();
-		let mon_bytes = self.nodes[i].chain_monitor.chain_monitor.get_monitor(self.chan_id).unwrap().encode();
+		let mut mons: Vec<Vec<u8>> = vec![self.nodes[i].chain_monitor.chain_monitor.get_monitor(self.chan_id).unwrap().encode()];
+		if let Some(s2) = self.second.as_ref() {
+			if s2.hub == i { mons.push(self.nodes[i].chain_monitor.chain_monitor.get_monitor(s2.chan_id).unwrap().encode()); }
+		}
+		let mon_refs: Vec<&[u8]> = mons.iter().map(|m| &m[..]).collect();
 		let persister = leak(TestPersister::new());
 		let cm = leak(TestChainMonitor::new(Some(self.nodes[i].chain_source), self.nodes[i].tx_broadcaster, self.nodes[i].logger,
 			self.nodes[i].fee_estimator, persister, self.nodes[i].keys_manager));
 		let cfg = self.nodes[i].node.get_current_config();
 		self.nodes[i].chain_monitor = cm;
-		let mgr = leak(_reload_node(&self.nodes[i], cfg, &mgr_bytes, &[&mon_bytes[..]], None));
+		let mgr = leak(_reload_node(&self.nodes[i], cfg, &mgr_bytes, &mon_refs[..], None));
 		self.nodes[i].node = mgr;
 		self.nodes[i].onion_messenger.set_offers_handler(mgr);
 		self.nodes[i].onion_messenger.set_async_payments_handler(mgr);
@@ -1508,6 +1644,40 @@ impl Net {
 				}
 			},
 		}
+		let (sec, sm, sd) = (self.second.as_ref().map(|s| s.chan_type.clone()).unwrap_or_default(), self.sweep_mode.clone(), self.sweep_defer);
+		if let Some(e) = self.log.iter_mut().rev().find(|e| e["ev"] == "open") { e["second"] = json!(sec); e["sweep"] = json!(sm); e["defer"] = json!(sd); }
+		self.checkpoint(None, true);
+		if let Some(hub) = self.second.as_ref().map(|s| s.hub) {
+			// the node with the two channels has to be a node under test
+			if !self.live.contains(&hub) { return false; }
+			if let Some(k) = c["close2"].as_str() { self.close2(k); }
+		}
+		true
+	}
+
+	/// The node's second channel goes to the chain: by the node's own latest commitment ("holder": the node
+	/// force-closes) or by its peer's ("counterparty": the harness announces the peer's signed commitment).
+	fn close2(&mut self, kind: &str) -> bool {
+		let (hub, chan_id, closed) = match self.second.as_ref() { Some(s) => (s.hub, s.chan_id, s.closed), None => return false };
+		if closed || !self.live.contains(&hub) { return false; }
+		self.flush_idle();
+		let h = self.height();
+		let peer_pk = self.nodes[2].node.get_our_node_id();
+		let hub_pk = self.nodes[hub].node.get_our_node_id();
+		if kind == "holder" {
+			self.ev(json!({"ev":"close2","node":hub,"kind":"holder","h":h}));
+			if self.nodes[hub].node.force_close_broadcasting_latest_txn(&chan_id, &peer_pk, "closing".to_string()).is_err() { return false; }
+		} else {
+			let tx = {
+				let mon = match self.nodes[2].chain_monitor.chain_monitor.get_monitor(chan_id) { Ok(m) => m, Err(_) => return false };
+				mon.unsafe_get_latest_holder_commitment_txn(&self.nodes[2].logger)[0].clone()
+			};
+			self.ev(json!({"ev":"close2","node":hub,"kind":"counterparty","h":h}));
+			let _ = hub_pk;
+			self.second.as_mut().unwrap().commit_txid = Some(tx.compute_txid());
+			self.handle_bcast(HARNESS, tx, "Commitment2".into());
+		}
+		self.second.as_mut().unwrap().closed = true;
 		self.checkpoint(None, true);
 		true
 	}
@@ -1552,7 +1722,13 @@ impl Net {
 			fees[m.by.min(3)] += m.fee;
 			if m.sweep { swept[m.by.min(1)] += m.tx.output.iter().map(|o| o.value.to_sat()).sum::<u64>(); }
 		}
-		self.ev(json!({"ev":"final","h":h,"balances_empty":empty,"unswept":unswept,"mempool_left":left,"ends":ends,"fees":fees,"swept":swept}));
+		// what the monitor of the node's second channel still lists (an inbound HTLC whose preimage never turned up aside)
+		let other_left = match self.second.as_ref() {
+			Some(s2) if s2.closed && self.live.contains(&s2.hub) => self.nodes[s2.hub].chain_monitor.chain_monitor.get_monitor(s2.chan_id)
+				.map(|m| m.get_claimable_balances().iter().filter(|b| !matches!(b, Balance::MaybePreimageClaimableHTLC { .. })).count()).unwrap_or(0),
+			_ => 0,
+		};
+		self.ev(json!({"ev":"final","h":h,"balances_empty":empty,"unswept":unswept,"mempool_left":left,"other_left":other_left,"ends":ends,"fees":fees,"swept":swept}));
 	}
 }
 
@@ -1572,12 +1748,33 @@ fn style_of(k: usize) -> ConnectStyle {
 	}
 }
 
-fn build_net(run: u64, cfg: &Value) -> Net {
+fn user_config(chan_type: &str) -> lightning::util::config::UserConfig {
+	let mut uc = test_default_channel_config();
+	uc.channel_handshake_config.announced_channel_max_inbound_htlc_value_in_flight_percentage = 100;
+	match chan_type {
+		"static" => { uc.channel_handshake_config.negotiate_anchors_zero_fee_htlc_tx = false; },
+		"zerofee" => { uc.channel_handshake_config.negotiate_anchor_zero_fee_commitments = true; },
+		_ => {},
+	}
+	uc
+}
+
+/// Node `to` is told the blocks node `from` has seen beyond its own (its chain is a prefix of theirs).
+fn sync_blocks(nodes: &Vec<Node<'static, 'static, 'static>>, from: usize, to: usize) {
+	let src: Vec<bitcoin::Block> = nodes[from].blocks.lock().unwrap().iter().map(|b| b.0.clone()).collect();
+	let have = nodes[to].blocks.lock().unwrap().len();
+	for b in src.iter().skip(have) { connect_block(&nodes[to], b); }
+}
+
+fn build_net(run: u64, cfg: &Value, rseed: u64) -> Net {
 	let chan_type = cfg["chan_type"].as_str().unwrap_or("anchors").to_string();
 	let value = cfg["value"].as_u64().unwrap_or(1_000_000);
 	let push = cfg["push"].as_u64().unwrap_or(400_000_000);
 	let feerate0 = cfg["feerate"].as_u64().unwrap_or(253) as u32;
-	let mut cfgs_v = create_chanmon_cfgs(2);
+	// a second channel: node `hub` (0 or 1) <-> node 2
+	let second_cfg = if cfg["second"].is_object() { Some(cfg["second"].clone()) } else { None };
+	let nn = if second_cfg.is_some() { 3 } else { 2 };
+	let mut cfgs_v = create_chanmon_cfgs(nn);
 	for c in cfgs_v.iter_mut() {
 		// a would-be cheater must be able to sign its old states
 		c.keys_manager.disable_revocation_policy_check = true;
@@ -1586,23 +1783,20 @@ fn build_net(run: u64, cfg: &Value) -> Net {
 	for c in cfgs.iter() {
 		*c.fee_estimator.sat_per_kw.lock().unwrap() = feerate0;
 	}
-	let node_cfgs = leak(create_node_cfgs(2, cfgs));
-	let mut uc = test_default_channel_config();
-	uc.channel_handshake_config.announced_channel_max_inbound_htlc_value_in_flight_percentage = 100;
-	match chan_type.as_str() {
-		"static" => { uc.channel_handshake_config.negotiate_anchors_zero_fee_htlc_tx = false; },
-		"zerofee" => { uc.channel_handshake_config.negotiate_anchor_zero_fee_commitments = true; },
-		_ => {},
-	}
-	let ucs = vec![Some(uc.clone()), Some(uc.clone())];
-	let mgrs = leak(create_node_chanmgrs(2, node_cfgs, &ucs));
-	let nodes = create_network(2, node_cfgs, mgrs);
+	let node_cfgs = leak(create_node_cfgs(nn, cfgs));
+	let uc = user_config(&chan_type);
+	let ucs: Vec<Option<lightning::util::config::UserConfig>> = (0..nn).map(|_| Some(uc.clone())).collect();
+	let mgrs = leak(create_node_chanmgrs(nn, node_cfgs, &ucs));
+	let nodes = create_network(nn, node_cfgs, mgrs);
 	for (i, n) in nodes.iter().enumerate() {
 		*n.connect_style.borrow_mut() = style_of(cfg["style"][i].as_u64().unwrap_or(3) as usize);
 	}
 	let mut fee_utxos = Vec::new();
-	if chan_type != "static" {
+	let any_anchor = chan_type != "static" || second_cfg.as_ref().map(|s| s["chan_type"].as_str().unwrap_or("static") != "static").unwrap_or(false);
+	if any_anchor {
 		let _ = provide_utxo_reserves(&nodes, 4, bitcoin::Amount::ONE_BTC);
+	}
+	if chan_type != "static" {
 		// coins of the would-be cheater outside its node's wallet (fee inputs of hand-made HTLC transactions)
 		let hs = harness_script();
 		let tx = Transaction { version: Version::TWO, lock_time: LockTime::ZERO, input: vec![TxIn { ..Default::default() }],
@@ -1617,10 +1811,56 @@ fn build_net(run: u64, cfg: &Value) -> Net {
 	*cfgs[1].fee_estimator.sat_per_kw.lock().unwrap() = 253;
 	let ftxid = ftx.compute_txid();
 	let vout = ftx.output.iter().position(|o| o.value.to_sat() == value).unwrap_or(0) as u32;
+	let mut second = None;
+	if let Some(sc) = second_cfg {
+		let hub = sc["hub"].as_u64().unwrap_or(0) as usize % 2;
+		let ct2 = sc["chan_type"].as_str().unwrap_or("static").to_string();
+		let value2 = sc["value"].as_u64().unwrap_or(800_000);
+		let push2 = sc["push"].as_u64().unwrap_or(300_000_000);
+		for i in 0..2 {
+			let _ = nodes[i].node.get_and_clear_pending_msg_events();
+			let _ = nodes[i].node.get_and_clear_pending_events();
+		}
+		sync_blocks(&nodes, hub, 2);
+		let uc2 = user_config(&ct2);
+		nodes[hub].node.set_current_config(uc2.clone());
+		nodes[2].node.set_current_config(uc2);
+		let fe = *cfgs[hub].fee_estimator.sat_per_kw.lock().unwrap();
+		*cfgs[2].fee_estimator.sat_per_kw.lock().unwrap() = fe;
+		let (_, _, chan2, ftx2) = create_announced_chan_between_nodes_with_value(&nodes, hub, 2, value2, push2);
+		nodes[hub].node.set_current_config(uc.clone());
+		// HTLCs left pending on the second channel when it goes to the chain
+		if let Some(hs) = sc["htlcs"].as_array() {
+			for h in hs.iter() {
+				let from_hub = h["from"].as_str().unwrap_or("hub") == "hub";
+				let amt = h["amt"].as_u64().unwrap_or(30_000_000);
+				let (a, b) = if from_hub { (hub, 2) } else { (2, hub) };
+				let (pre, _, _, _) = route_payment(&nodes[a], &[&nodes[b]], amt);
+				if !from_hub && h["known"].as_bool().unwrap_or(false) {
+					// the node learns the preimage; the fulfil never reaches the peer
+					nodes[hub].node.claim_funds(pre);
+				}
+			}
+		}
+		let (pk_hub, pk2) = (nodes[hub].node.get_our_node_id(), nodes[2].node.get_our_node_id());
+		nodes[hub].node.peer_disconnected(pk2);
+		nodes[2].node.peer_disconnected(pk_hub);
+		*cfgs[2].fee_estimator.sat_per_kw.lock().unwrap() = 253;
+		for n in nodes.iter() {
+			let _ = n.node.get_and_clear_pending_msg_events();
+			let _ = n.node.get_and_clear_pending_events();
+			n.chain_monitor.added_monitors.lock().unwrap().clear();
+		}
+		sync_blocks(&nodes, hub, 1 - hub);
+		let vout2 = ftx2.output.iter().position(|o| o.value.to_sat() == value2).unwrap_or(0) as u32;
+		second = Some(Second { hub, chan_id: chan2, funding: OutPoint { txid: ftx2.compute_txid(), vout: vout2 }, chan_type: ct2, closed: false, commit_txid: None });
+	}
 	for n in nodes.iter() {
 		n.tx_broadcaster.txn_broadcasted.lock().unwrap().clear();
 		n.tx_broadcaster.txn_types.lock().unwrap().clear();
 	}
+	let sweep_mode = cfg["sweep"]["mode"].as_str().unwrap_or("each").to_string();
+	let sweep_defer = cfg["sweep"]["defer"].as_bool().unwrap_or(false);
 	let mut net = Net {
 		nodes, cfgs, chan_id, chan_type, queues: HashMap::new(), log: Vec::new(), hashes: Vec::new(), claim_ids: Vec::new(), pays: Vec::new(), scid, run,
 		holder_num: [0, 0], revoked: [0, 0], snaps: [HashMap::new(), HashMap::new()], known: [HashSet::new(), HashSet::new()], mark: None,
@@ -1630,6 +1870,7 @@ fn build_net(run: u64, cfg: &Value) -> Net {
 		idle_from: None, executed: 0, skipped: 0, swept: [0, 0], refused: [false, false], jump_from: None, mined: Vec::new(), fork: 0, hwm: 0,
 		agent_descs: Vec::new(), agent_manual: cfg["agent_manual"].as_bool().unwrap_or(false), fee_utxos, fee_next: 0, next_shape: None,
 		txmap: HashMap::new(), open_h: 0, rb_tick: 0, in_reorg: false,
+		second, sweep_mode, sweep_defer, sweep_now: false, srng: StdRng::seed_from_u64(rseed ^ 0x5eed_5eed), spend_events: 0,
 	};
 	net.drain_msgs();
 	net.deliver(usize::MAX);
@@ -1929,6 +2170,7 @@ fn shape_script(rng: &mut StdRng) -> Value {
 /// reorganised out of the chain -- to just below it or deeper, after one or many confirmations -- and
 /// confirms again, in the next block or later; the network keeps or forgets the victim's claims.
 fn unwind_script(rng: &mut StdRng) -> Value {
+	if rng.gen_range(0..100) < 40 { return fork_point_script(rng); }
 	let types = ["static", "anchors", "zerofee"];
 	let owner = rng.gen_range(0..2usize);
 	let victim = 1 - owner;
@@ -1965,6 +2207,68 @@ fn unwind_script(rng: &mut StdRng) -> Value {
 		"history":history,"close":{"kind":"revoked","owner":owner,"k":"mark"},"chain":chain,"family":"unwind"})
 }
 
+/// Reorganisations whose fork point lies exactly at (or one block below / above) the block B in which a
+/// second-stage transaction of the cheater -- or a justice claim of the victim -- confirmed: the victim's
+/// aggregated justice claim is kept out of the blocks, the cheater takes one of its inputs in block B (an
+/// HTLC-success at once, an HTLC-timeout after the expiry), one to three blocks are built on top (empty, or with
+/// claims of the victim), then the chain is taken back to B (the block stays: what the node recorded for B must
+/// survive), to B - 1 (the transaction leaves the chain) or to B + 1, and goes on.
+fn fork_point_script(rng: &mut StdRng) -> Value {
+	let types = ["static", "anchors", "zerofee"];
+	let owner = rng.gen_range(0..2usize);
+	let victim = 1 - owner;
+	// histories with HTLCs in the revoked state: one the cheater offered (its timeout transaction), one or two it
+	// received and claimed while the state was current (its success transactions)
+	let mut history: Vec<Value> = Vec::new();
+	let mut np = 0;
+	let amts = ["big", "big", "small", "edge"];
+	let n_off = rng.gen_range(0..=2);
+	let n_rcv = if n_off == 0 { rng.gen_range(1..=3) } else { rng.gen_range(0..=2) };
+	let mut rcv: Vec<usize> = Vec::new();
+	for _ in 0..n_off { history.push(json!({"op":"pay","from":owner,"amt":amts[rng.gen_range(0..amts.len())]})); np += 1; }
+	for _ in 0..n_rcv { history.push(json!({"op":"pay","from":victim,"amt":amts[rng.gen_range(0..amts.len())]})); rcv.push(np); np += 1; }
+	if rng.gen_bool(0.2) { history.push(json!({"op":"fee","v":([253u32, 1000, 2500][rng.gen_range(0..3)])})); }
+	for k in rcv.iter() { if rng.gen_bool(0.8) { history.push(json!({"op":"claim","pay":k,"deliver":false})); } }
+	history.push(json!({"op":"mark","owner":owner}));
+	history.push(json!({"op":"deliver_all"}));
+	history.push(json!({"op":"pay","from":rng.gen_range(0..2),"amt":"small"}));
+	let mut chain: Vec<Value> = Vec::new();
+	// the revoked commitment confirms alone; the victim's claims stay out of the blocks
+	chain.push(json!({"op":"mine","who":[AGENT],"agent_htlcs":[]}));
+	let timeout = n_off > 0 && (n_rcv == 0 || rng.gen_bool(0.6));
+	if timeout {
+		chain.push(json!({"op":"to_expiry","htlc":rng.gen_range(0..4),"who":"none","off":rng.gen_range(0..2)}));
+	} else if rng.gen_bool(0.4) {
+		chain.push(json!({"op":"mine","who":"none","n":rng.gen_range(1..4)}));
+	}
+	// block B: one (or two, or all) of the cheater's second-stage transactions
+	chain.push(json!({"op":"mine","who":[AGENT],"agent_htlcs": if rng.gen_bool(0.7) { json!([rng.gen_range(0..4)]) } else { agent_sel(rng) }}));
+	let d = [0i64, 0, 0, 0, 0, 0, -1, 1, 1][rng.gen_range(0..9)];       // fork point B + d
+	let target = if rng.gen_bool(0.85) { "stage2" } else { "claim" };
+	// blocks on top of B
+	let on_top = rng.gen_range(1..=3) + if d > 0 { 1 } else { 0 };
+	let mut left = on_top;
+	if rng.gen_bool(0.3) { chain.push(json!({"op":"mine","who":[victim],"prefer": if rng.gen_bool(0.5) {"new"} else {"old"}})); left -= 1; }
+	if left > 0 { chain.push(json!({"op":"mine","who":"none","n":left})); }
+	chain.push(json!({"op":"unwind","target":target,"extra":-1 - d,"keep":rng.gen_bool(0.5)}));
+	let r = rng.gen_range(0..100);
+	if r < 12 { chain.push(json!({"op":"reload","node":victim})); }
+	else if r < 25 { chain.push(json!({"op":"rebroadcast","node":victim})); }
+	// the new chain
+	if rng.gen_bool(0.6) { chain.push(json!({"op":"mine","who":"none","n":rng.gen_range(1..4)})); }
+	if d < 0 || rng.gen_bool(0.3) { chain.push(json!({"op":"mine","who":[AGENT],"agent_htlcs":agent_sel(rng)})); }
+	if rng.gen_bool(0.3) {
+		// a second reorganisation at the same fork point
+		chain.push(json!({"op":"mine","who":"none","n":rng.gen_range(1..3)}));
+		chain.push(json!({"op":"unwind","target":target,"extra":-1,"keep":rng.gen_bool(0.5)}));
+	}
+	if rng.gen_bool(0.4) { chain.push(json!({"op":"mine","who":"none","n":rng.gen_range(1..20)})); }
+	chain.push(json!({"op":"settle"}));
+	json!({"cfg":{"chan_type":types[rng.gen_range(0..3)],"value":1_000_000,"push":([100_000_000u64, 400_000_000, 500_000_000][rng.gen_range(0..3)]),
+		"feerate":([253u32, 253, 1000][rng.gen_range(0..3)]),"style":[rng.gen_range(0..11), rng.gen_range(0..11)]},
+		"history":history,"close":{"kind":"revoked","owner":owner,"k":"mark"},"chain":chain,"family":"fork_point"})
+}
+
 /// An honest unilateral close (holder's or counterparty's latest commitment) whose commitment
 /// transaction -- with whatever HTLC claims have confirmed on top of it -- is reorganised out of the chain
 /// and confirms again, at the same height or later; the network keeps or forgets the nodes' claims.
@@ -1982,7 +2286,10 @@ fn honest_unwind_script(rng: &mut StdRng) -> Value {
 	for round in 0..2 {
 		let r = rng.gen_range(0..100);
 		let target = if r < 60 || round == 1 { "commit" } else if r < 85 { "claim" } else { "tip" };
-		chain.push(json!({"op":"unwind","target":target,"extra":rng.gen_range(0..3),"keep":rng.gen_bool(0.4)}));
+		// (fork point below the target's block, or -- extra < 0 -- exactly at it / one above: the block stays)
+		let extra = if rng.gen_bool(0.3) { rng.gen_range(-2..0) } else { rng.gen_range(0..3) };
+		if extra < 0 { chain.push(json!({"op":"mine","who":"none","n":rng.gen_range(1..3) - extra - 1})); }
+		chain.push(json!({"op":"unwind","target":target,"extra":extra,"keep":rng.gen_bool(0.4)}));
 		if rng.gen_bool(0.3) { for n in 0..2 { chain.push(json!({"op":"rebroadcast","node":n})); } }
 		if rng.gen_bool(0.15) { chain.push(json!({"op":"reload","node":rng.gen_range(0..2)})); }
 		if rng.gen_bool(0.5) { chain.push(json!({"op":"mine","who":"none","n":rng.gen_range(1..4)})); }
@@ -2117,7 +2424,96 @@ fn prev_holder_script(rng: &mut StdRng) -> Value {
 	json!({"cfg":std_cfg(rng, ct),"history":history,"close":close,"chain":chain,"family":"prev_holder"})
 }
 
+/// The second channel of the node with two channels: its type, capacity, the node's share, what is pending on it.
+fn second_channel(rng: &mut StdRng, hub: usize) -> Value {
+	let types = ["static", "anchors", "zerofee"];
+	let mut htlcs: Vec<Value> = Vec::new();
+	let r = rng.gen_range(0..100);
+	if r < 20 { htlcs.push(json!({"from":"hub","amt":rng.gen_range(5_000_000..60_000_000u64)})); }
+	else if r < 45 { htlcs.push(json!({"from":"peer","amt":rng.gen_range(5_000_000..60_000_000u64),"known":rng.gen_bool(0.8)})); }
+	json!({"hub":hub,"chan_type":types[rng.gen_range(0..3)],"value":([600_000u64, 800_000, 1_200_000][rng.gen_range(0..3)]),
+		"push":([100_000_000u64, 250_000_000, 300_000_000][rng.gen_range(0..3)]),"htlcs":htlcs})
+}
+
+fn sweep_policy(rng: &mut StdRng) -> Value {
+	let r = rng.gen_range(0..100);
+	let mode = if r < 45 { "all" } else if r < 70 { "mixed" } else if r < 85 { "event" } else { "each" };
+	json!({"mode":mode,"defer":rng.gen_bool(0.7)})
+}
+
+/// One node with TWO unilaterally closed channels -- any mix of its own and its peers' commitments, of channel
+/// types, with or without pending HTLCs -- whose matured outputs the application sweeps the way OutputSweeper
+/// does: everything it has been handed in one `spend_spendable_outputs` call (also: per event, one by one, random
+/// batches in random order), at once or only after everything has been reported.
+fn multi_sweep_script(rng: &mut StdRng) -> Value {
+	let types = ["static", "anchors", "zerofee"];
+	let hub = rng.gen_range(0..2usize);
+	let owner = if rng.gen_bool(0.5) { hub } else { 1 - hub };
+	let (history, npay) = random_history(rng, false, owner);
+	let history: Vec<Value> = history.into_iter().filter(|o| !(o["op"] == "deliver") && !(o["op"] == "pay" && o["deliver"] == json!(false))).collect();
+	let mut close = if rng.gen_bool(0.5) { json!({"kind":"force","node":owner,"deliver_error":false}) } else { json!({"kind":"counterparty","owner":owner,"which":"current"}) };
+	let kind2 = if rng.gen_bool(0.5) { "holder" } else { "counterparty" };
+	let mut chain: Vec<Value> = Vec::new();
+	let r = rng.gen_range(0..100);
+	if r < 45 { close["close2"] = json!(kind2); }
+	else if r < 60 { chain.push(json!({"op":"close2","kind":kind2})); }
+	chain.push(json!({"op":"mine","who":"all","n":1,"prefer":"old"}));
+	if r >= 60 && r < 90 {
+		if rng.gen_bool(0.5) { chain.push(json!({"op":"mine","who":"all","n":rng.gen_range(1..8)})); }
+		chain.push(json!({"op":"close2","kind":kind2}));
+		chain.push(json!({"op":"mine","who":"all","n":1}));
+	}
+	for _ in 0..rng.gen_range(0..4) {
+		let r = rng.gen_range(0..100);
+		if r < 25 { chain.push(json!({"op":"mine","who":"all","prefer": if rng.gen_bool(0.5) {"new"} else {"old"}})); }
+		else if r < 45 { chain.push(json!({"op":"mine","who":"none","n":rng.gen_range(1..12)})); }
+		else if r < 55 && npay > 0 { chain.push(json!({"op":"preimage","pay":rng.gen_range(0..npay)})); }
+		else if r < 70 { chain.push(json!({"op":"reload","node":hub})); }
+		else if r < 80 { chain.push(json!({"op":"to_expiry","htlc":rng.gen_range(0..4),"who":"all","off":rng.gen_range(0..2)})); }
+		else if r < 88 { chain.push(json!({"op":"feerate","node":hub,"v":([253u32, 1000, 5000][rng.gen_range(0..3)])})); }
+		else { chain.push(json!({"op":"sweep"})); }
+	}
+	chain.push(json!({"op":"settle"}));
+	let ct = types[rng.gen_range(0..3)];
+	let mut cfg = std_cfg(rng, ct);
+	cfg["push"] = json!([100_000_000u64, 400_000_000, 500_000_000][rng.gen_range(0..3)]);
+	cfg["second"] = second_channel(rng, hub);
+	cfg["sweep"] = sweep_policy(rng);
+	json!({"cfg":cfg,"history":history,"close":close,"chain":chain,"family":"multi_sweep"})
+}
+
+/// The victim of a revoked commitment has a second closed channel; the justice outputs, its balance on the
+/// revoked commitment and the outputs of the other channel are swept together.
+fn revoked_multi_sweep_script(rng: &mut StdRng) -> Value {
+	let types = ["static", "anchors", "zerofee"];
+	let owner = rng.gen_range(0..2usize);
+	let victim = 1 - owner;
+	let (history, _) = random_history(rng, true, owner);
+	let kind2 = if rng.gen_bool(0.5) { "holder" } else { "counterparty" };
+	let mut close = json!({"kind":"revoked","owner":owner,"k":"mark"});
+	let mut chain: Vec<Value> = Vec::new();
+	if rng.gen_bool(0.5) { close["close2"] = json!(kind2); }
+	chain.push(json!({"op":"mine","who":[AGENT, HARNESS, victim],"agent_htlcs": if rng.gen_bool(0.5) { json!([]) } else { agent_sel(rng) }}));
+	for _ in 0..rng.gen_range(0..4) {
+		let r = rng.gen_range(0..100);
+		if r < 30 { chain.push(json!({"op":"mine","who":[AGENT],"agent_htlcs":agent_sel(rng)})); }
+		else if r < 50 { chain.push(json!({"op":"mine","who":[victim, HARNESS]})); }
+		else if r < 65 { chain.push(json!({"op":"mine","who":"none","n":rng.gen_range(1..10)})); }
+		else if r < 80 { chain.push(json!({"op":"close2","kind":kind2})); }
+		else if r < 90 { chain.push(json!({"op":"reload","node":victim})); }
+		else { chain.push(json!({"op":"sweep"})); }
+	}
+	chain.push(json!({"op":"settle"}));
+	let mut cfg = json!({"chan_type":types[rng.gen_range(0..3)],"value":1_000_000,"push":([100_000_000u64, 400_000_000, 500_000_000][rng.gen_range(0..3)]),
+		"feerate":([253u32, 253, 1000][rng.gen_range(0..3)]),"style":[rng.gen_range(0..11), rng.gen_range(0..11)]});
+	cfg["second"] = second_channel(rng, victim);
+	cfg["sweep"] = sweep_policy(rng);
+	json!({"cfg":cfg,"history":history,"close":close,"chain":chain,"family":"revoked_multi_sweep"})
+}
+
 fn random_script(rng: &mut StdRng, profile: &str) -> Value {
+	if profile == "c07m" { return multi_sweep_script(rng); }
+	if profile == "c06m" { return revoked_multi_sweep_script(rng); }
 	if profile == "c07d" { return dup_hash_script(rng); }
 	if profile == "c07x" { return competing_commitments_script(rng); }
 	if profile == "c07p" { return prev_holder_script(rng); }
@@ -2260,7 +2656,20 @@ fn main() {
 		}
 	}
 	let mut rng = StdRng::seed_from_u64(seed);
-	for _ in 0..random { scripts.push(random_script(&mut rng, &profile)); }
+	for k in 0..random {
+		let mut sc = random_script(&mut rng, &profile);
+		// how the application sweeps (a stream of its own: the schedules of a seed stay what they were); profiles
+		// with reorganisations that unconfirm transactions keep one call per descriptor
+		if sc["cfg"]["sweep"].is_null() && ["c06", "c06s", "c06t", "c07", "c07d", "c07p"].contains(&profile.as_str()) {
+			let mut r2 = StdRng::seed_from_u64(seed.wrapping_mul(0x9e3779b97f4a7c15).wrapping_add(k as u64));
+			let r = r2.gen_range(0..100);
+			if r < 50 {
+				let mode = if r < 20 { "all" } else if r < 35 { "event" } else { "mixed" };
+				sc["cfg"]["sweep"] = json!({"mode":mode,"defer":r2.gen_bool(0.3)});
+			}
+		}
+		scripts.push(sc);
+	}
 	let mut tw = TraceWriter::create(&out);
 	let mut sw = TraceWriter::create(&format!("{}.scripts", out));
 	let (mut panics, mut executed, mut skipped, mut unrealised, mut setup_fail, mut closed_runs) = (0usize, 0usize, 0usize, 0usize, 0usize, 0usize);
@@ -2270,7 +2679,7 @@ fn main() {
 		let mut rr = StdRng::seed_from_u64(rseed);
 		let mut log: Vec<Value> = Vec::new();
 		let res = catch_unwind(AssertUnwindSafe(|| {
-			let mut net = build_net(run + 1, &s["cfg"]);
+			let mut net = build_net(run + 1, &s["cfg"], rseed);
 			for op in s["history"].as_array().unwrap() { net.history_step(op, &mut rr); }
 			net.log.clear();
 			let ok = net.close(&s["close"]);
